@@ -81,7 +81,11 @@ def gen_case(rng):
         # (all of them unaddressed): the last free address is found while
         # the others are still being written
         n = rng.randint(2, 10)
-        hi = lo + n - 1
+        if rng.random() < 0.25:
+            # a long segment: more than a hundred allocations in flight at
+            # the same time
+            n = rng.randint(70, 160)
+        hi = lo + n - 1 + rng.choice([0, 0, 3])
         pre = {}
     return dict(n=n, range=[lo, hi], pre={str(k): v for k, v in pre.items()},
                 mode=mode, tight=(hi - lo + 1 == n and not pre),
